@@ -117,3 +117,28 @@ End Frag.
 Definition reg_related (x : bytes) (sv sr : istate) : Prop :=
   lookup x (fst sv) = Some (snd sr)
   /\ forall q, bytes_eqb q x = false -> lookup q (fst sv) = lookup q (fst sr).
+
+(* evalForInteger on the fragment: the iterations i, i+1, ..., i+n-1 of a counted loop `for x = i:i+n {body}`.
+   Variable mode (reg = None, State.NoReg or the rewrite gave up): env.Set(x, i) before each iteration;
+   register mode (body already rewritten): *ptr = i. The loop's value is the value of the last completed
+   iteration; an error (or an unsupported construct) ends it. Whatever the body assigned to x, the next
+   iteration starts from the counter again. *)
+Fixpoint iloop (reg : option bytes) (x : bytes) (body : node) (i : Z) (n : nat) (st : istate) (last : ires)
+  : ires * istate :=
+  match n with
+  | O => (last, st)
+  | S n' =>
+    let st0 := match reg with
+               | Some _ => (fst st, i)
+               | None => (update x i (fst st), snd st)
+               end in
+    match ieval reg body st0 with
+    | (IVal v, st1) => iloop reg x body (i + 1) n' st1 (IVal v)
+    | (INil, st1) => iloop reg x body (i + 1) n' st1 INil
+    | other => other
+    end
+  end.
+
+(* every name other than the loop variable is bound alike on both sides *)
+Definition others_related (x : bytes) (sv sr : istate) : Prop :=
+  forall q, bytes_eqb q x = false -> lookup q (fst sv) = lookup q (fst sr).
